@@ -3,5 +3,6 @@ CONSTANTS
   Threads = {1, 2}
   MaxOps = 2
   Atomic = FALSE
+  Block = 1
 INVARIANTS TypeOK Unique
 CHECK_DEADLOCK FALSE
